@@ -226,6 +226,91 @@ pub fn run(tier: &str, seed: u64) -> i32 {
         }
         remove_dir(&dir);
     }
+    // start sequences: a refused start must not write anything — the same wrong configuration is refused
+    // again, and the creating configuration still reopens and serves the same state
+    for (wn, wt, what) in [("signet", true, "another network"), ("regtest", false, "the other trace setting"), ("mainnet", false, "both")] {
+        let dir = fresh_dir();
+        let before = match start_server(&ServerCfg { dir: dir.clone(), auth: false, network: "regtest".into(), traces: true }) {
+            Ok(mut s) => {
+                populate(&s.addr);
+                let o = observe(&s.addr);
+                s.stop();
+                o
+            }
+            Err(e) => {
+                errors.push(e);
+                continue;
+            }
+        };
+        for attempt in 1..=2 {
+            evals += 1;
+            mismatches += 1;
+            if let Ok(mut s) = start_server(&ServerCfg { dir: dir.clone(), auth: false, network: wn.into(), traces: wt }) {
+                s.stop();
+                vs.push(mk("mismatch-started", format!("created regtest/traces=true, started with {} (attempt {})", what, attempt), format!("start() under {}/traces={} served a directory created under regtest/traces=true on attempt {}", wn, wt, attempt)));
+                break;
+            }
+        }
+        evals += 1;
+        match start_server(&ServerCfg { dir: dir.clone(), auth: false, network: "regtest".into(), traces: true }) {
+            Ok(mut s) => {
+                let after = observe(&s.addr);
+                s.stop();
+                if after != before {
+                    vs.push(mk("state-differs-after-reopen", format!("regtest/traces=true after two refused starts with {}", what), first_diff(&before, &after)));
+                }
+            }
+            Err(e) => vs.push(mk("identical-configuration-refused", format!("regtest/traces=true after two refused starts with {}", what), e)),
+        }
+        remove_dir(&dir);
+    }
+    // a configuration database that holds only some of the recorded keys (a first start that died half-way)
+    for keep in 0..4usize {
+        let dir = fresh_dir();
+        match start_server(&ServerCfg { dir: dir.clone(), auth: false, network: "regtest".into(), traces: true }) {
+            Ok(mut s) => {
+                populate(&s.addr);
+                s.stop();
+            }
+            Err(e) => {
+                errors.push(e);
+                continue;
+            }
+        }
+        for (i, k) in keys.iter().enumerate() {
+            if i != keep {
+                tamper(&dir, k, None);
+            }
+        }
+        evals += 1;
+        mismatches += 1;
+        if let Ok(mut s) = start_server(&ServerCfg { dir: dir.clone(), auth: false, network: "regtest".into(), traces: true }) {
+            s.stop();
+            vs.push(mk("tampered-record-accepted", format!("only {} recorded", keys[keep]), format!("start() served a populated directory whose configuration database holds only {}", keys[keep])));
+        }
+        remove_dir(&dir);
+    }
+    for what in ["hidden file only", "LOCK and LOG files only", "a sub-directory named like a table with a file in it"] {
+        let dir = fresh_dir();
+        match what {
+            "hidden file only" => std::fs::write(dir.join(".DS_Store"), b"x").unwrap(),
+            "LOCK and LOG files only" => {
+                std::fs::write(dir.join("LOCK"), b"").unwrap();
+                std::fs::write(dir.join("LOG"), b"log").unwrap();
+            }
+            _ => {
+                std::fs::create_dir_all(dir.join("db_account")).unwrap();
+                std::fs::write(dir.join("db_account").join("000001.sst"), b"not a table").unwrap();
+            }
+        }
+        evals += 1;
+        mismatches += 1;
+        if let Ok(mut s) = start_server(&ServerCfg { dir: dir.clone(), auth: false, network: "regtest".into(), traces: true }) {
+            s.stop();
+            vs.push(mk("foreign-directory-accepted", what.to_string(), format!("start() served a non-empty directory without recorded configuration ({})", what)));
+        }
+        remove_dir(&dir);
+    }
     for what in ["foreign file", "empty config database", "only table directories"] {
         let dir = fresh_dir();
         match what {
@@ -250,7 +335,7 @@ pub fn run(tier: &str, seed: u64) -> i32 {
     let mut ev = Evidence::new("C20", tier, seed, "exploration");
     ev.coverage = json!({
         "evaluations": evals, "distinct_nontrivial": mismatches,
-        "rule": "all 196 ordered pairs (creating configuration, reopening configuration) over 7 network names x trace on/off through validate_config_database; through the public start() in child processes: every configuration restarted as itself on a populated directory (must serve the same state) and mismatching pairs (all 182); each of the 4 recorded keys missing / altered / empty / six near misses of the recorded value (extension, truncation, case, white space); three restarts in a row; 4 kinds of non-empty directories without recorded configuration. distinct_nontrivial = cases that had to be refused",
+        "rule": "all 196 ordered pairs (creating configuration, reopening configuration) over 7 network names x trace on/off through validate_config_database; through the public start() in child processes: every configuration restarted as itself on a populated directory (must serve the same state) and mismatching pairs (all 182); each of the 4 recorded keys missing / altered / empty / six near misses of the recorded value (extension, truncation, case, white space); three restarts in a row; two refused starts with a wrong configuration followed by the right one (3 kinds of mismatch); configuration databases holding only one of the four keys; 7 kinds of non-empty directories without recorded configuration. distinct_nontrivial = cases that had to be refused",
         "samples": samples, "servers_started": started, "exhaustive": true, "machinery_errors": errors,
     });
     ev.assumptions = vec!["network names are compared as recorded (mainnet and bitcoin are different configurations to the check, as they are to the code)".into()];
